@@ -370,6 +370,17 @@ class CliCampaign:
                 args += ["-d", base + ".dot"]
             if it["ptree"]:
                 args += ["-p", base + ".ptree"]
+            # the order of the options on the command line is free: shuffle the option groups (deterministically per item)
+            groups, k = [], 0
+            while k < len(args):
+                if args[k] in ("-o", "-f", "-c", "-b", "-d", "-p") and k + 1 < len(args):
+                    groups.append(args[k:k + 2])
+                    k += 2
+                else:
+                    groups.append(args[k:k + 1])
+                    k += 1
+            random.Random(int(it["key"][:8], 16) + ix).shuffle(groups)
+            args = [a_ for g in groups for a_ in g]
             rc, out = run_rsbdd(args, stdin)
             it["exit"] = rc
             it["stdout"] = out
